@@ -268,6 +268,23 @@ def check(repo: Repo, rep: Report) -> None:
         rep.require(n_calls >= 2, f"downstream calls reachable from slots in {root.ref} ({n_calls})")
         rep.ob("K2-one-lock", root, f"locks: {sorted(locks_used)}", len(locks_used) <= 1,
                f"different slots of {root.qual} serialize on different locks {sorted(locks_used)}: they do not exclude each other")
+    # K6: the windows a window operator feeds are part of its downstream: a window's observer is entered by the source thread
+    # (elements) and by the timer thread (rotation / completion), so those calls are serialized by the same lock
+    rep.rule("K6-windows-covered", "window operators: every call on a window subject made by a source slot / timer action is under the operator's lock", floor=8)
+    for rel, path in COMBINATORS:
+        if "window" not in path:
+            continue
+        root = repo.fn(rel, path)
+        for g in root.walk():
+            if not g.is_func or g is root:
+                continue
+            for s_ in sites(g):
+                n_ = s_.node
+                if isinstance(n_, ast.Call) and isinstance(n_.func, ast.Attribute) and n_.func.attr in ("on_next", "on_error", "on_completed") \
+                        and u(n_.func.value) != root.params[0]:
+                    rep.ob("K6-windows-covered", g, f"{g.qual.split('.', 1)[-1]}: `{short(n_, 40)}` under {list(s_.ctx.locks) or 'no lock'}", bool(s_.ctx.locks),
+                           f"`{short(n_, 40)}` reaches a window's observer without the operator's lock: the timer thread can complete / rotate that "
+                           f"window while the source thread is still inside its on_next — the window observer is entered from two threads at once")
     # K3 delegations
     fm = repo.module("reactivex/operators/_flatmap.py")
     for f in fm.root.children:
